@@ -34,13 +34,40 @@ def triples(M):
     return [list(x) for x in t]
 
 
+class EventLog:
+    """Interpreted mode only (NUMBA_DISABLE_JIT=1): records every coo_append call of the four drivers, in call order."""
+    def __init__(self):
+        import vectorizers.token_cooccurrence_vectorizer as a, vectorizers.ngram_token_cooccurence_vectorizer as b
+        import vectorizers.timed_token_cooccurrence_vectorizer as c, vectorizers.multi_token_cooccurence_vectorizer as d
+        self.mods, self.log = [a, b, c, d], []
+
+    def __enter__(self):
+        self.orig = [m.coo_append for m in self.mods]
+        for m, o in zip(self.mods, self.orig):
+            def rec(coo, tup, o=o):
+                self.log.append([int(tup[0]), int(tup[1]), float(tup[2])])
+                return o(coo, tup)
+            m.coo_append = rec
+        return self
+
+    def __exit__(self, *a):
+        for m, o in zip(self.mods, self.orig):
+            m.coo_append = o
+
+
 def run(case):
     if case["kind"] == "em_direct":
         return run_em_direct(case)
     m = make(case)
     X = build_X(case)
     how = case.get("how", "fit_transform")
-    if how == "fit_transform":
+    events = None
+    import os
+    if case.get("log_events") and os.environ.get("NUMBA_DISABLE_JIT") == "1":
+        with EventLog() as ev:
+            M = m.fit_transform(X)
+        events = ev.log
+    elif how == "fit_transform":
         M = m.fit_transform(X)
     else:
         M = m.fit(X).transform(X)
@@ -56,6 +83,8 @@ def run(case):
         out["raw_ngrams"] = [[[int(x) for x in k], int(v)] for k, v in m._raw_ngram_dictionary_.items()]
     if case["kind"] == "timed":
         out["delta_mean"] = float(m.delta_mean_)
+    if events is not None:
+        out["events"] = events
     return {"ok": out}
 
 
